@@ -1,0 +1,188 @@
+//go:build verif
+// +build verif
+
+package gocql
+
+import (
+	"context"
+	"errors"
+	"net"
+	"runtime"
+	"sync"
+	"sync/atomic"
+)
+
+// Recorder behind the connection trace points (build tag "verif" only). One log per *Conn; an event
+// is appended under the recorder's lock on the goroutine that performs the action, so for the
+// trace points that sit inside a c.mu critical section the log order is the mutex order.
+
+// VerifConnEvent is one recorded trace point. Call is a per-connection serial number of the *callReq
+// (0: none). NCalls/SumKeys/Closed are read from the connection only at trace points that hold c.mu
+// (len(c.calls), sum of its keys, c.closed); they are -1 elsewhere.
+type VerifConnEvent struct {
+	Kind, Call, A, B        int
+	NCalls, SumKeys, Closed int
+}
+
+// VerifConnTrace is the event log of one connection.
+type VerifConnTrace struct {
+	Conn    *Conn
+	Version int
+	Streams int
+	Events  []VerifConnEvent
+}
+
+type verifConnLog struct {
+	conn   *Conn
+	calls  map[*callReq]int
+	events []VerifConnEvent
+}
+
+var verifConnRec struct {
+	mu      sync.Mutex
+	on      bool
+	logs    map[*Conn]*verifConnLog
+	order   []*verifConnLog
+	perturb uint32
+	ctr     uint32
+}
+
+// VerifConnTraceStart clears the recorder and switches it on. perturb > 0 makes about one trace point
+// in perturb yield the processor (schedule perturbation; never changes what is recorded).
+func VerifConnTraceStart(perturb int) {
+	r := &verifConnRec
+	r.mu.Lock()
+	r.on = true
+	r.logs = map[*Conn]*verifConnLog{}
+	r.order = nil
+	r.mu.Unlock()
+	atomic.StoreUint32(&r.perturb, uint32(perturb))
+}
+
+// VerifConnTraceStop switches the recorder off and returns nothing; logs stay available.
+func VerifConnTraceStop() {
+	r := &verifConnRec
+	r.mu.Lock()
+	r.on = false
+	r.mu.Unlock()
+}
+
+// VerifConnTraces returns (a copy of) the logs of the connections of session s (all if s is nil), in
+// the order in which the connections first appeared; with consume it also forgets them.
+func VerifConnTraces(s *Session, consume bool) []VerifConnTrace {
+	r := &verifConnRec
+	r.mu.Lock()
+	defer r.mu.Unlock()
+	var out []VerifConnTrace
+	var keep []*verifConnLog
+	for _, l := range r.order {
+		if s != nil && l.conn.session != s {
+			keep = append(keep, l)
+			continue
+		}
+		out = append(out, VerifConnTrace{Conn: l.conn, Version: int(l.conn.version), Streams: l.conn.streams.NumStreams,
+			Events: append([]VerifConnEvent(nil), l.events...)})
+		if consume {
+			delete(r.logs, l.conn)
+		} else {
+			keep = append(keep, l)
+		}
+	}
+	r.order = keep
+	return out
+}
+
+// VerifConnInUse is the allocator's count of reserved stream ids of c.
+func VerifConnInUse(c *Conn) int { return c.streams.NumStreams - 1 - c.streams.Available() }
+
+func (c *Conn) vConn(kind int, call *callReq, a, b int) {
+	r := &verifConnRec
+	if p := atomic.LoadUint32(&r.perturb); p > 0 {
+		n := atomic.AddUint32(&r.ctr, 1)
+		if (n*2654435761)>>16%p == 0 {
+			switch kind {
+			case vcAddCall, vcDelCall, vcLookup, vcCloseBegin:
+				// holding c.mu: do not yield here
+			default:
+				runtime.Gosched()
+			}
+		}
+	}
+	r.mu.Lock()
+	defer r.mu.Unlock()
+	if !r.on {
+		return
+	}
+	l := r.logs[c]
+	if l == nil {
+		l = &verifConnLog{conn: c, calls: map[*callReq]int{}}
+		r.logs[c] = l
+		r.order = append(r.order, l)
+	}
+	ev := VerifConnEvent{Kind: kind, A: a, B: b, NCalls: -1, SumKeys: -1, Closed: -1}
+	if call != nil {
+		id := l.calls[call]
+		if id == 0 {
+			id = len(l.calls) + 1
+			l.calls[call] = id
+		}
+		ev.Call = id
+	}
+	switch kind {
+	case vcAddCall, vcDelCall, vcLookup, vcCloseBegin:
+		// the caller holds c.mu
+		ev.NCalls = len(c.calls)
+		ev.SumKeys = 0
+		for k := range c.calls {
+			ev.SumKeys += k
+		}
+		ev.Closed = 0
+		if c.closed {
+			ev.Closed = 1
+		}
+	}
+	l.events = append(l.events, ev)
+}
+
+func verifB2I(b bool) int {
+	if b {
+		return 1
+	}
+	return 0
+}
+
+func verifIsNetErr(err error) bool { _, ok := err.(net.Error); return ok }
+
+// verifWriteClass mirrors the branch exec takes after writeContext: 0 no error, 1 context error with
+// nothing written (the stream is released), 2 any other error (the connection is closed).
+func verifWriteClass(err error, n int) int {
+	if err == nil {
+		return 0
+	}
+	if (errors.Is(err, context.Canceled) || errors.Is(err, context.DeadlineExceeded)) && n == 0 {
+		return 1
+	}
+	return 2
+}
+
+// VerifConnList returns the recorded connections of session s in order of first appearance, without
+// consuming their logs; control reports for each whether it is the session's current control connection.
+func VerifConnList(s *Session) (conns []*Conn, control []bool) {
+	var ctl *Conn
+	if s != nil && s.control != nil {
+		if ch, _ := s.control.conn.Load().(*connHost); ch != nil {
+			ctl = ch.conn
+		}
+	}
+	r := &verifConnRec
+	r.mu.Lock()
+	defer r.mu.Unlock()
+	for _, l := range r.order {
+		if s != nil && l.conn.session != s {
+			continue
+		}
+		conns = append(conns, l.conn)
+		control = append(control, l.conn == ctl)
+	}
+	return
+}
